@@ -66,13 +66,13 @@ StyleDistinct(l) ==
      DigitsWithSeps(l.digits, StyleOrder[j], l.base, 1) # DigitsWithSeps(l.digits, l.sep, l.base, 1)
 
 Lit(f, n, sep, sfx) == [base |-> f.base, prefix |-> f.prefix, digits |-> DigitCharsOf(n, f), sep |-> sep, suffix |-> sfx]
-\* quick: every suffix spelling without separators, every separator placement with the canonical suffixes;
-\* thorough: the full product (digit separators are C++14)
+\* every suffix spelling without separators; separator placements with the canonical suffixes (thorough: with every
+\* suffix spelling for decimal and hexadecimal literals); digit separators are C++14
 IntLitSpellings ==
   LET plain == {Lit(f, n, "none", s) : f \in Forms, n \in Boundaries, s \in AllSuffixes}
       seps == IF Lang # "c++" THEN {}
               ELSE {Lit(f, n, st, s) : f \in Forms, n \in Boundaries, st \in IF Thorough THEN {"first", "last", "group"} ELSE {"first", "group"},
-                                       s \in IF Thorough THEN AllSuffixes ELSE CanonSuffixes}
+                                       s \in IF Thorough /\ f.base \in {10, 16} THEN AllSuffixes ELSE CanonSuffixes}
       \* quick: every suffix spelling only for decimal and lower-case hex, canonical suffixes for the other forms
       keep(l) == Thorough \/ l.suffix \in CanonSuffixes \/ l.prefix \in {<<>>, <<"0", "x">>}
   IN  {l \in plain \cup seps : keep(l) /\ StyleDistinct(l) /\ IntLitType(l, P) # "?"}
@@ -95,7 +95,9 @@ CharLitSpellings ==
   IN  {l \in single \cup two \cup three \cup four :
          /\ CharLitWellFormed(l, Lang, P)
          \* the C typedef target of wchar_t is compiler-specific on this platform: its values are, the witness type is not
-         /\ ~(l.prefix = <<"L">> /\ Lang = "c" /\ P.wcharTypeOpen)}
+         /\ ~(l.prefix = <<"L">> /\ Lang = "c" /\ P.wcharTypeOpen)
+         \* char32_t is at least 32 bits wide, but the only compiler available for the 16-bit-int model gives it 16: left open
+         /\ ~(l.prefix = <<"U">> /\ P.int < 4 /\ NBits(ElemCode(l.elems[1])) > 16)}
 
 FloatSpellings ==
   LET dec == {[base |-> 10, ip |-> ip, fp |-> fp, dot |-> dot, hasExp |-> he, exp |-> IF he THEN ex ELSE 0, suffix |-> s] :
@@ -137,7 +139,7 @@ BoolLeaves == IF Lang = "c++" THEN {[k |-> "bool", v |-> TRUE]} ELSE {}
 WellTyped(e) == Eval(e, Lang, P).ok
 Leaves ==
   {e \in TypedLeaves \cup HexLeaves \cup ChrLeaves \cup BoolLeaves
-         \cup SmallLeaves(IF Thorough THEN {0, 1, 2, 3, 7, 8, 15, 16, 31, 32, 33, 63, 64} ELSE {0, 2, 31})
+         \cup SmallLeaves(IF Thorough THEN {0, 1, 2, 7, 31, 32, 63, 64} ELSE {0, 2, 31})
          \cup (IF Thorough THEN {IntE(Dec(NAdd(MaxOf("int"), <<1>>)), <<>>), IntE(Dec(NAdd(MaxOf("uint"), <<1>>)), <<>>),
                                  HexE(<<"7", "f", "f", "f", "f", "f", "f", "f">>, <<>>),
                                  HexE(<<"f", "f", "f", "f", "f", "f", "f", "f", "f", "f", "f", "f", "f", "f", "f", "f">>, <<>>),
@@ -292,7 +294,7 @@ Row(i, o) ==
            ELSE IF o.clang # "ok" THEN "model_disagreement"
            ELSE "violation"
   IN  IF v = "ok" /\ o.clang # "fail" THEN [verdict |-> "ok", plain |-> TRUE]
-      ELSE [id |-> i, expr |-> ExprText(x), verdict |-> v, rule |-> Rule(x), plain |-> FALSE, clang |-> o.clang,
+      ELSE [id |-> i, expr |-> ExprText(x), verdict |-> v, kind |-> x.kind, rule |-> Rule(x), plain |-> FALSE, clang |-> o.clang,
             expected |-> IF isF THEN Join(NToDecChars(FloatLitFrac(x.c).num)) \o "/" \o Join(NToDecChars(FloatLitFrac(x.c).den))
                          ELSE IToDecStr(r.v) \o " (" \o r.t \o ")",
             got |-> IF o.vkind = "" THEN "-" ELSE Join(o.val)]
